@@ -90,7 +90,8 @@ LEVEL_NOTE = ('Trusted: Coq kernel; the translator\'s primitive table and statem
               '(the raising-site theorems do not) -- localised: only the views the lookups of the request select must '
               'not raise it (C14_judge_accepts_model_local_partial); with NO premise on the bodies: the first body of a '
               'lookup is the selected view\'s, and "no view => same object propagates, attributes restored" '
-              '(C14_comps_loop_first, C14_gen_no_view_propagates_same_object_full).')
+              '(C14_comps_loop_first, C14_gen_no_view_propagates_same_object_full), and the rendering begins with the '
+              'selected view seeing the exception as context / exception / exc_info (C14_gen_iev_first_event).')
 
 ISA_NAMES = ['BaseException', 'Exception', 'HTTPNotFound', 'PredicateMismatch', 'HTTPForbidden']   # + pseudo 'truthy'
 EXC_CLASSES = ['E0', 'E1', 'E2', 'F0', 'D', 'K', 'NF', 'FB', 'BR', 'PM', 'MyNF', 'HE', 'WX', 'BE', 'G1', 'G2', 'DD', 'FZ', 'EL', 'NA']
